@@ -9,11 +9,13 @@ package main
 // record's host is ITS address and the info (and version / index list) are ITS peer's.
 
 import (
+	"compress/gzip"
 	"context"
 	"errors"
 	"fmt"
 	"net"
 	"net/http"
+	"os"
 	"strings"
 	"sync"
 	"sync/atomic"
@@ -31,9 +33,17 @@ type ovPeer struct {
 	Behave   string `json:"behaviour"` // good | good-slow | nonjson | nonjson-slow | notfound | notfound-slow
 	Tag      string `json:"tag"`
 	SlowMS   int    `json:"slow_ms"`
+	Gzip     bool   `json:"gzip"` // honours Accept-Encoding: gzip
 	srv      *http.Server
 	requests atomic.Int64
 }
+
+type gzipResponseWriter struct {
+	http.ResponseWriter
+	zw *gzip.Writer
+}
+
+func (g gzipResponseWriter) Write(b []byte) (int, error) { return g.zw.Write(b) }
 
 type ovBad struct {
 	Probe     int    `json:"probe"`
@@ -62,6 +72,7 @@ type ovRow struct {
 	Bad        []ovBad   `json:"bad"`
 	ElapsedMS  float64   `json:"elapsed_ms"`
 	Seed       int64     `json:"seed"`
+	Decoy      string    `json:"environment,omitempty"`
 }
 
 func (p *ovPeer) handler(kind string) http.Handler {
@@ -80,6 +91,12 @@ func (p *ovPeer) handler(kind string) http.Handler {
 			w.Header().Set("Content-Type", "text/html")
 			fmt.Fprintf(w, "<html><body>It works! %s</body></html>", p.Tag)
 		case kind == "docker":
+			if p.Gzip && strings.Contains(r.Header.Get("Accept-Encoding"), "gzip") && !strings.HasSuffix(r.URL.Path, "/_ping") {
+				w.Header().Set("Content-Encoding", "gzip")
+				zw := gzip.NewWriter(w)
+				defer zw.Close()
+				w = gzipResponseWriter{ResponseWriter: w, zw: zw}
+			}
 			w.Header().Set("API-Version", "1.40")
 			w.Header().Set("Content-Type", "application/json")
 			switch {
@@ -97,6 +114,12 @@ func (p *ovPeer) handler(kind string) http.Handler {
 				fmt.Fprint(w, `{"message":"page not found"}`)
 			}
 		default: // elastic
+			if p.Gzip && strings.Contains(r.Header.Get("Accept-Encoding"), "gzip") {
+				w.Header().Set("Content-Encoding", "gzip")
+				zw := gzip.NewWriter(w)
+				defer zw.Close()
+				w = gzipResponseWriter{ResponseWriter: w, zw: zw}
+			}
 			w.Header().Set("Content-Type", "application/json")
 			switch r.URL.Path {
 			case "/":
@@ -146,12 +169,30 @@ func overlapStage(kind string, seed int64, goroutines int, maxProbes int64, maxD
 		if err != nil {
 			continue
 		}
-		p := &ovPeer{IP: ip, Port: l.Addr().(*net.TCPAddr).Port, Behave: m.behave, SlowMS: m.slow}
+		p := &ovPeer{IP: ip, Port: l.Addr().(*net.TCPAddr).Port, Behave: m.behave, SlowMS: m.slow, Gzip: i%2 == 1}
 		p.Tag = fmt.Sprintf("peer%d-%d", i, p.Port)
 		p.srv = &http.Server{Handler: p.handler(kind)}
 		go p.srv.Serve(l)
 		peers = append(peers, p)
 		byTag[p.Tag] = p
+	}
+	// The operator's environment must not matter: DOCKER_HOST (exported by remote docker contexts, CI runners, rootless
+	// docker) names a DECOY daemon that no probe is aimed at; a probe whose requests end up there is recognisable by
+	// the decoy's name in its record.  DOCKER_API_VERSION pins a version no peer announces.
+	if kind == "docker" {
+		if l, err := net.Listen("tcp4", "127.0.0.1:0"); err == nil {
+			d := &ovPeer{IP: "127.0.0.1", Port: l.Addr().(*net.TCPAddr).Port, Behave: "good (DOCKER_HOST decoy, never probed)"}
+			d.Tag = fmt.Sprintf("peerDECOY-%d", d.Port)
+			d.srv = &http.Server{Handler: d.handler(kind)}
+			go d.srv.Serve(l)
+			defer d.srv.Close()
+			byTag[d.Tag] = d
+			row.Decoy = fmt.Sprintf("DOCKER_HOST=tcp://127.0.0.1:%d DOCKER_API_VERSION=1.31", d.Port)
+			os.Setenv("DOCKER_HOST", fmt.Sprintf("tcp://127.0.0.1:%d", d.Port))
+			os.Setenv("DOCKER_API_VERSION", "1.31")
+			defer os.Unsetenv("DOCKER_HOST")
+			defer os.Unsetenv("DOCKER_API_VERSION")
+		}
 	}
 	to := time.Duration(timeoutMS) * time.Millisecond
 	// exactly what command/{docker,elastic}.go do with --proto http --timeout T
